@@ -14,7 +14,11 @@ type seqMarker struct {
 	match func(in ssa.Instruction) bool
 }
 
-func (c *Ctx) ruleSeq(rule string, f *ssa.Function, markers []seqMarker) {
+func (c *Ctx) ruleSeq(rule string, f *ssa.Function, markers []seqMarker, why ...string) {
+	reason := "the later step depends on the earlier one"
+	if len(why) > 0 {
+		reason = why[0]
+	}
 	if f == nil {
 		return
 	}
@@ -50,7 +54,7 @@ func (c *Ctx) ruleSeq(rule string, f *ssa.Function, markers []seqMarker) {
 			}
 		}
 		c.ob(rule, fmt.Sprintf("%s:%s<%s", relName(f.String()), markers[i].name, markers[i+1].name), at.Pos(), ok,
-			fmt.Sprintf("%s must perform `%s` before `%s` (writer and reader of the node encoding must agree on the field order)", shortFn(f), markers[i].name, markers[i+1].name))
+			fmt.Sprintf("%s must perform `%s` before `%s`: %s", shortFn(f), markers[i].name, markers[i+1].name, reason))
 	}
 }
 
